@@ -2,4 +2,6 @@ import UnifexModel.Core.Sched
 import UnifexModel.Core.Reflect
 import UnifexModel.Core.Admit
 import UnifexModel.Driver.Registry
+import UnifexModel.Props.C01
 import UnifexModel.Props.C03
+import UnifexModel.Props.C05
